@@ -4,6 +4,7 @@ import (
 	"context"
 	"fmt"
 	"google.golang.org/grpc/metadata"
+	"io"
 	"math"
 	"strconv"
 	"strings"
@@ -62,6 +63,9 @@ func c08(tier string) []*explore.Scenario {
 		out = append(out, c08ConcurrentRaw(2, raw, 1))
 	}
 	out = append(out, c08ConcurrentRaw(8, "2562048H", 0))
+	for _, kind := range []string{"Bidi", "SStream", "Unary"} {
+		out = append(out, c08ParkedReadLoop(kind, 800*time.Millisecond))
+	}
 	maxFull := 5
 	if tier == "thorough" {
 		maxFull = 7
@@ -739,6 +743,71 @@ func c08ConcurrentRaw(k int, raw string, bound int) *explore.Scenario {
 				} else if dl.Sub(start) < 2562047*time.Hour-time.Minute {
 					vsched.Fail(fam+"|deadline-wrong", "%d calls with grpc-timeout %s started at once: the handler of %s has its deadline only %v away", len(rs), raw, r.Tag, dl.Sub(start))
 				}
+			}
+		},
+	}
+}
+
+// c08ParkedReadLoop: a call with a deadline is started while the connection's read loop is parked delivering to
+// another stream whose caller is slow to read (so anything that needs the client's registry waits); `wait` later the
+// slow caller reads on and the call proceeds. Waiting inside the client before the request is written is not transit:
+// the handler's deadline is the caller's (the remaining time is measured when the request leaves, not before the wait).
+func c08ParkedReadLoop(kind string, wait time.Duration) *explore.Scenario {
+	fam := "C08/parked-read-loop-" + kind
+	return &explore.Scenario{
+		Name: fmt.Sprintf("C08/parked-read-loop/%s/wait=%v", kind, wait), Family: fam, Prop: "C08", Bound: 0, Horizon: time.Nanosecond,
+		Run: func() {
+			w := env.NewWorld()
+			d := env.NewDirect(w, env.DirectOpts{Pipe: env.PipeOpts{Cap: 64}})
+			vsched.Settle()
+			slow := w.Rec("slow", "SStream")
+			w.Handlers["slow"] = func(r *env.Rec, ss grpc.ServerStream) error {
+				if _, err := recvOne(r, ss); err != nil && err != io.EOF {
+					return err
+				}
+				for i := 0; i < 4; i++ {
+					if err := ss.SendMsg(env.S(fmt.Sprintf("b%d", i))); err != nil {
+						return err
+					}
+				}
+				return nil
+			}
+			resume := make(chan struct{})
+			vsched.GoNamed("caller-slow", func() {
+				if cs := w.Open(d.CC, context.Background(), slow); cs != nil {
+					env.CSend(slow, cs, "go")
+					env.CClose(slow, cs)
+					<-resume
+					env.CRecvAll(slow, cs)
+				}
+				slow.CDone = true
+			})
+			vsched.Settle() // four responses outstanding: the read loop is parked
+			ctx, cancel := context.WithTimeout(context.Background(), 3*time.Second)
+			defer cancel()
+			callerDl, _ := ctx.Deadline()
+			r := w.Rec("p", kind)
+			if kind == "Unary" {
+				vsched.GoNamed("caller-p", func() { w.CallUnary(d.CC, ctx, r, "x") })
+			} else {
+				w.Handlers["p"] = func(r *env.Rec, ss grpc.ServerStream) error { return nil }
+				vsched.GoNamed("caller-p", func() { w.Open(d.CC, ctx, r) })
+			}
+			vsched.Settle()
+			started := r.HStarts
+			vsched.Sleep(wait)
+			close(resume)
+			vsched.Settle()
+			if r.HStarts != 1 {
+				vsched.Fail(fam+"|handler-not-run", "the call started while the read loop was parked: handler ran %d times (err %v)", r.HStarts, r.CErr)
+				return
+			}
+			dl, has := r.HCtx.Deadline()
+			vsched.Obs("%s: handler had started before the wait: %v; deadline off by %v", kind, started == 1, dl.Sub(callerDl))
+			if !has {
+				vsched.Fail(fam+"|deadline-lost", "the handler has no deadline")
+			} else if dl.Before(callerDl.Add(-time.Millisecond)) || dl.After(callerDl) {
+				vsched.Fail(fam+"|deadline-late", "a %s call with a 3s deadline waited %v inside the client (the read loop was parked delivering to a slow reader) before its request was written: the handler's deadline differs from the caller's by %v, allowed [-1ms, 0]", kind, wait, dl.Sub(callerDl))
 			}
 		},
 	}
